@@ -47,10 +47,18 @@ def _one(fam, seed, props, kw):
     deck, opts = FAMILIES[fam](seed)
     opts = dict(opts)
     opts.update(kw)
-    fails, stats, _ = checks.check_deck(deck, seed, want=tuple(props) + ('C08',), **opts)
+    retag = opts.pop('retag', None)
+    want = tuple(props) + ('C08',)
+    if retag:
+        want = tuple(retag) + ('C08',)
+    fails, stats, _ = checks.check_deck(deck, seed, want=want, **opts)
+    if retag and not any(c.like for c in deck.cells.values()):
+        return {'fails': [], 'stats': stats, 'nontrivial': False}      # only decks with LIKE cells count here
     out = []
     for f in fails:
         f = dict(f)
+        if retag and f['property'] in retag:
+            f['property'] = props[0]
         f['label'] = _norm_label(f)
         f['family'], f['seed'] = fam, seed
         out.append(f)
